@@ -244,7 +244,25 @@ def cli_validate(text: str) -> Dict[str, Any]:
                 rc = int(e.code or 0)
             except Exception as e:  # noqa: BLE001
                 return {"rc": -1, "out": out.getvalue(), "exc": "%s: %s" % (type(e).__name__, str(e)[:200])}
-        return {"rc": rc, "out": out.getvalue(), "hashseed": os.environ.get("PYTHONHASHSEED")}
+        # the umbrella command `python -m clematis validate <file>` is the same validator behind another front door
+        out2, err2 = io.StringIO(), io.StringIO()
+        rc2: Any = None
+        exc2 = None
+        cwd = os.getcwd()
+        try:
+            os.chdir(os.path.dirname(path))   # no ./configs/config.yaml here: a dropped path argument cannot hide behind a default
+            import clematis.cli.main as umbrella
+            with contextlib.redirect_stdout(out2), contextlib.redirect_stderr(err2):
+                try:
+                    rc2 = umbrella.main(["validate", path])
+                except SystemExit as e:
+                    rc2 = int(e.code or 0)
+                except Exception as e:  # noqa: BLE001
+                    exc2 = "%s: %s" % (type(e).__name__, str(e)[:200])
+        finally:
+            os.chdir(cwd)
+        return {"rc": rc, "out": out.getvalue(), "hashseed": os.environ.get("PYTHONHASHSEED"),
+                "umbrella": {"rc": rc2, "out": out2.getvalue(), "err": err2.getvalue()[-300:], "exc": exc2}}
     finally:
         try:
             os.remove(path)
@@ -369,6 +387,13 @@ def execute(p: Dict[str, Any]) -> Dict[str, Any]:
         if "exc" in res:
             bad("total:cli:%s" % res["exc"].split(":")[0], "CLI raised %s" % res["exc"])
             continue
+        um = res.get("umbrella") or {}
+        if um:
+            if um.get("exc"):
+                bad("total:cli-umbrella:%s" % str(um["exc"]).split(":")[0], "python -m clematis validate raised %s" % um["exc"])
+            elif (um.get("rc"), um.get("out")) != (res["rc"], res["out"]):
+                bad("consistency:cli-umbrella-vs-script", "`clematis validate <file>`: rc=%s out=%r err=%r; the script on the same file: rc=%s out=%r" % (
+                    um.get("rc"), (um.get("out") or "")[:120], (um.get("err") or "")[-160:], res["rc"], res["out"][:120]))
         lines = res["out"].rstrip("\n").split("\n")
         if verdict["ok"]:
             if res["rc"] != 0 or lines[0] != "OK":
